@@ -44,7 +44,7 @@ theorem setWidth32_signExtend64 (x : BitVec 32) : (x.signExtend 64).setWidth 32 
   apply BitVec.eq_of_getLsbD_eq; intro i hi
   simp [BitVec.getLsbD_signExtend, hi]; omega
 
-theorem signExtend64_eq_zero (x : BitVec 32) : x.signExtend 64 = 0 ↔ x = 0 := by
+theorem signExtend64_eq_zero (x : BitVec 32) : x.signExtend 64 = 0#64 ↔ x = 0#32 := by
   constructor
   · intro h; have := congrArg (BitVec.setWidth 32) h; simpa [setWidth32_signExtend64] using this
   · rintro rfl; simp
